@@ -394,6 +394,9 @@ func init() {
 			newRec, _ := os.ReadFile(filepath.Join(newDir, recName))
 			newSt, ok2 := decoded(newDir)
 			if !ok1 || !ok2 {
+				// no crash involved: a record the engine has just saved cannot be loaded by a fresh store handle and
+				// persister, so the next process will start a new session over it
+				c.Fail("C12", "saved-record-does-not-load", fmt.Sprintf("the record saved after request %d (old loads: %v) / %d (new loads: %v) of the history cannot be loaded by a fresh persister (%d / %d bytes)", n-1, ok1, n, ok2, len(oldRec), len(newRec)))
 				return "harness-error reference-records"
 			}
 			calls := readTrace(dry)
